@@ -84,6 +84,9 @@ func runScriptCtx(parent context.Context, sv SolverCfg, file string, perQueryMs 
 // is reported as a failure (solver disagreement).
 var crossCheck = false
 
+// retryOff: development runs with an explicit -timeout do not retry
+var retryOff = false
+
 // knownObls: obligations listed as known findings are expected to fail; they get a short time limit
 var knownObls = map[string]bool{}
 
@@ -234,73 +237,85 @@ func solvePath(ps *PathScript, workDir string, perQueryMs int, onlySolver string
 			continue
 		}
 		iso := isolate(ps.Script, o.Seq)
-		type ans struct {
-			sv   SolverCfg
-			r    string
-			ok   bool
-			secs float64
-			err  error
+		// an obligation nobody decides in the time limit gets one more round with three times the limit before it is
+		// reported (timeouts under machine load must not turn into alarms); known findings and covers are exempt
+		rounds := []int{perQueryMs, 3 * perQueryMs}
+		if knownObls[o.Name] || o.Kind == "cover" || retryOff {
+			rounds = rounds[:1]
 		}
-		var cands []SolverCfg
-		for _, sv := range solvers {
-			if onlySolver != "" && !strings.HasPrefix(sv.Name, onlySolver) {
-				continue
+		for _, roundMs := range rounds {
+			if o.Status == "unsat" || o.Status == "sat" {
+				break
 			}
-			cands = append(cands, sv)
-		}
-		if o.Kind == "cover" && len(cands) > 1 {
-			cands = cands[:1]
-		}
-		ch := make(chan ans, len(cands))
-		ctx, cancel := context.WithCancel(context.Background())
-		for _, sv := range cands {
-			go func(sv SolverCfg) {
-				file := fmt.Sprintf("%s.o%d.%s.smt2", base, o.Seq, sv.Name)
-				if err := os.WriteFile(file, []byte(sv.Pre+iso), 0o644); err != nil {
-					ch <- ans{sv: sv, err: err}
-					return
+			perQueryMs := roundMs
+			type ans struct {
+				sv   SolverCfg
+				r    string
+				ok   bool
+				secs float64
+				err  error
+			}
+			var cands []SolverCfg
+			for _, sv := range solvers {
+				if onlySolver != "" && !strings.HasPrefix(sv.Name, onlySolver) {
+					continue
 				}
-				ms := perQueryMs
-				if o.Kind == "cover" {
-					ms = 2000
+				cands = append(cands, sv)
+			}
+			if o.Kind == "cover" && len(cands) > 1 {
+				cands = cands[:1]
+			}
+			ch := make(chan ans, len(cands))
+			ctx, cancel := context.WithCancel(context.Background())
+			for _, sv := range cands {
+				go func(sv SolverCfg) {
+					file := fmt.Sprintf("%s.o%d.%s.smt2", base, o.Seq, sv.Name)
+					if err := os.WriteFile(file, []byte(sv.Pre+iso), 0o644); err != nil {
+						ch <- ans{sv: sv, err: err}
+						return
+					}
+					ms := perQueryMs
+					if o.Kind == "cover" {
+						ms = 2000
+					}
+					if knownObls[o.Name] && ms > 3000 {
+						ms = 3000
+					}
+					res, secs, err := runScriptCtx(ctx, sv, file, ms, 1)
+					r, ok := res[o.Seq]
+					ch <- ans{sv: sv, r: r, ok: ok, secs: secs, err: err}
+				}(sv)
+			}
+			decided := false
+			for range cands {
+				a := <-ch
+				record(a.sv, a.secs)
+				if decided {
+					continue
 				}
-				if knownObls[o.Name] && ms > 3000 {
-					ms = 3000
+				if os.Getenv("GOVC_SLOW") != "" && a.secs > 2 {
+					fmt.Fprintf(os.Stderr, "slow: %.1fs %s %s -> %v\n", a.secs, a.sv.Name, o.Name, a.r)
 				}
-				res, secs, err := runScriptCtx(ctx, sv, file, ms, 1)
-				r, ok := res[o.Seq]
-				ch <- ans{sv: sv, r: r, ok: ok, secs: secs, err: err}
-			}(sv)
+				if a.err != nil && !a.ok {
+					if o.Status == "" {
+						o.Status = "error: " + a.err.Error()
+					}
+					continue
+				}
+				if !a.ok {
+					continue
+				}
+				if a.r == "unsat" || a.r == "sat" || o.Status == "" || strings.HasPrefix(o.Status, "error") {
+					o.Status = a.r
+					o.Solver = a.sv.Name
+					o.Secs = a.secs
+				}
+				if a.r == "unsat" || a.r == "sat" {
+					decided = true
+					cancel() // the other back ends are no longer needed
+				}
+			}
+			cancel()
 		}
-		decided := false
-		for range cands {
-			a := <-ch
-			record(a.sv, a.secs)
-			if decided {
-				continue
-			}
-			if os.Getenv("GOVC_SLOW") != "" && a.secs > 2 {
-				fmt.Fprintf(os.Stderr, "slow: %.1fs %s %s -> %v\n", a.secs, a.sv.Name, o.Name, a.r)
-			}
-			if a.err != nil && !a.ok {
-				if o.Status == "" {
-					o.Status = "error: " + a.err.Error()
-				}
-				continue
-			}
-			if !a.ok {
-				continue
-			}
-			if a.r == "unsat" || a.r == "sat" || o.Status == "" || strings.HasPrefix(o.Status, "error") {
-				o.Status = a.r
-				o.Solver = a.sv.Name
-				o.Secs = a.secs
-			}
-			if a.r == "unsat" || a.r == "sat" {
-				decided = true
-				cancel() // the other back ends are no longer needed
-			}
-		}
-		cancel()
 	}
 }
